@@ -888,7 +888,7 @@ impl Resolver {
                 );
                 for (name, field) in parser_fields.iter() {
                     let ss = self.stack.len();
-                    if matches!(field.kind, EK::Function { .. }) {
+                    if is_function_literal(field) {
                         self.stack.push(("self".to_string(), self_var));
                     }
                     fields.push((name.clone(), self.expression(field)?));
